@@ -11,7 +11,7 @@ Theorem C14_overwrite_iff_strategy : forall frepr cf p fuel o deep sdir ddir sub
   sync_ws frepr cf fuel o deep sdir ddir subdir = (d', None) ->
   lookup_path p (Dir sdir) = Some (File c1 m1) -> lookup_path p (Dir ddir) = Some (File c2 m2) ->
   (o_recursive o = true \/ length p = 1%nat) ->
-  forallb (fun k => negb (ignored cf k)) p = true -> excluded cf o (last p []) = false ->
+  forallb (fun k => negb (ignored cf k)) p = true -> excluded cf (at_path o p) (last p []) = false ->
   file_same frepr deep c1 m1 c2 m2 = false ->
   lookup_path p (Dir d') = Some (if verdict s (rel subdir p) m1 m2 then File c1 NOW else File c2 m2).
 Proof. exact ws_overwrite_iff. Qed.
@@ -26,7 +26,7 @@ Theorem C14_overwrite_only_if : forall frepr cf p fuel o deep sdir ddir subdir c
   after = Some (File c2 m2)
   \/ exists c1 m1 s,
        lookup_path p (Dir sdir) = Some (File c1 m1) /\ o_strategy o = Some s
-       /\ verdict s (rel subdir p) m1 m2 = true /\ excluded cf o (last p []) = false
+       /\ verdict s (rel subdir p) m1 m2 = true /\ excluded cf (at_path o p) (last p []) = false
        /\ file_same frepr deep c1 m1 c2 m2 = false /\ o_dry_run o = false
        /\ after = Some (File c1 NOW).
 Proof. exact ws_overwrite_only_if. Qed.
@@ -112,7 +112,7 @@ Theorem C14_model_holds : forall frepr cf k p fuel o deep sdir ddir d' s c1 m1 c
   sync_ws frepr cf fuel o deep sdir ddir [] = (d', None) ->
   file_at (k :: p) sdir = Some (c1, m1) -> file_at (k :: p) ddir = Some (c2, m2) ->
   (o_recursive o = true \/ length (k :: p) = 1%nat) ->
-  forallb (fun n => negb (ignored cf n)) (k :: p) = true -> excluded cf o (last (k :: p) []) = false ->
+  forallb (fun n => negb (ignored cf n)) (k :: p) = true -> excluded cf (at_path o (k :: p)) (last (k :: p) []) = false ->
   file_same frepr deep c1 m1 c2 m2 = false ->
   is_content frepr (if verdict s (path_str (k :: p)) m1 m2 then c1 else c2) (file_at (k :: p) d') = true.
 Proof. exact model_holds_C14. Qed.
